@@ -108,6 +108,33 @@ static void initOps(bool thorough) {
   C("cUINrng2", {{"UIN", "", "20-200:10"}}, "json", "derive-range");
   C("cD2Crng", {{"D2C", "", "-1.5-2.5:0.5"}}, "json", "derive-range");
   C("cD2Cneg", {{"D2C", "-10", ""}}, "", "derive-divisor");
+  // constant fields (=v) and verified constant fields (==v) of every type family, with matching data,
+  // well-formed but different data, data that is invalid for the type (error detected before / after the type
+  // has produced part of its text), and too short data
+  D("dKbtiOk", {{"BTI", "==21:04:58", ""}}, "580421", "decode-constant");
+  D("dKbtiDiff", {{"BTI", "==21:04:58", ""}}, "590421", "decode-constant");
+  D("dKbtiBad", {{"BTI", "==21:04:58", ""}}, "605923", "decode-constant");
+  D("dKbtiShort", {{"BTI", "==21:04:58", ""}}, "5804", "decode-constant");
+  D("dKbdaOk", {{"BDA:3", "=26.10.2014", ""}}, "261014", "decode-constant");
+  D("dKbdaBad", {{"BDA:3", "=26.10.2014", ""}}, "261314", "decode-constant");
+  D("dKbdaBcd", {{"BDA:3", "=26.10.2014", ""}}, "2610a4", "decode-constant");
+  D("dKttmBad", {{"TTM", "==12:30", ""}}, "95", "decode-constant");
+  D("dKhexOk", {{"HEX:2", "==48 61", ""}}, "4861", "decode-constant");
+  D("dKhexDiff", {{"HEX:2", "==48 61", ""}}, "4862", "decode-constant");
+  D("dKhexPlain", {{"HEX:2", "=48 61", ""}}, "4862", "decode-constant");
+  D("dKstrOk", {{"STR:2", "==ab", ""}}, "6162", "decode-constant");
+  D("dKuchOk", {{"UCH", "==5", ""}}, "05", "decode-constant");
+  D("dKuchNull", {{"UCH", "==5", ""}}, "ff", "decode-constant");
+  D("dKbcdBad", {{"BCD", "=42", ""}}, "a0", "decode-constant");
+  D("dKd2cOk", {{"D2C", "==18.00", ""}}, "2001", "decode-constant");
+  D("dKmix", {{"UCH", "", ""}, {"BTI", "==21:04:58", ""}, {"HEX:1", "=0a", ""}, {"D2C", "", ""}}, "11" "580421" "0a" "2001", "decode-multi-constant");
+  D("dKmixBad", {{"UCH", "", ""}, {"BTI", "==21:04:58", ""}, {"HEX:1", "=0a", ""}, {"D2C", "", ""}}, "11" "586021" "0a" "2001", "decode-multi-constant");
+  D("dUCHshort", {{"UCH", "", ""}}, "", "decode-int");
+  D("dBTIbad", {{"BTI", "", ""}}, "605923", "decode-datetime");
+  D("dBDAbad", {{"BDA:3", "", ""}}, "261314", "decode-datetime");
+  E("eKuch", {"UCH", "=5", ""}, "", "encode-constant");
+  E("eKbti", {"BTI", "==21:04:58", ""}, "", "encode-constant");
+  E("eKbad", {"UCH", "=300", ""}, "", "encode-constant");
   if (thorough) {
     E("eSINd100", {"SIN", "100", ""}, "-1.25", "encode-int-divisor");
     E("eFLT", {"FLT", "", ""}, "0.001", "encode-int-divisor");
@@ -387,7 +414,7 @@ static Run runInWorker(const vector<int>& hist) {
 static std::map<string, string> g_causeMemo;
 static string diagnose(const vector<int>& hist, int probe, const string& state, const string& baseline) {
   size_t a = state.find(";types="), b = state.find(";stream=");
-  string memoKey = string(g_ops[probe].id) + "|" + state.substr(0, a) + "|" + state.substr(b);
+  string memoKey = string(g_ops[probe].id) + "|" + state.substr(0, a) + "|" + state.substr(b) + (state.find("types={}") == string::npos ? "|derived" : "|none");
   auto it = g_causeMemo.find(memoKey);
   if (it != g_causeMemo.end()) return it->second;
   string cause = "unexplained";
